@@ -41,3 +41,40 @@ for _cls, _k in IFACES.items():
         },
         note="evaluate is a function of (last fit, cuts): row i depends on cuts[i] only; raises ValueError exactly for invalid cuts",
     )
+
+    if _k == 2:
+        # a single 1-D cut [s, e] is evaluated as the one-row array [[s, e]] (BaseIntervalScorer.evaluate: as_2d_array(cuts, vertical=False))
+        contract(
+            target=EVAL, variant=f"iface1d/{_cls}", assumed=True, level="A",
+            params={"self": f"obj:~{_cls}", "self._is_fitted": "bool=True", "self.min_size": "int", "self.ghost_tok": "int",
+                    "self.ghost_n": "int", "self.ghost_q": "int", "cuts": "int[c]"},
+            raises={"ValueError": "not (c == 2 and 0 <= cuts[0] and cuts[1] <= self.ghost_n and cuts[1] - cuts[0] >= self.min_size)"},
+            returns="real[1,self.ghost_q]",
+            ensures={
+                "value": "forall(range(self.ghost_q), lambda j: result[0, j] == SC2(self.ghost_tok, cuts[0], cuts[1], j))",
+                "agg": "rowsum(result, 0) == AGG2(self.ghost_tok, cuts[0], cuts[1])",
+            },
+            note="1-D cuts are one row (as_2d_array(vertical=False)); otherwise the same interface assumption as the 2-D variant",
+        )
+
+
+# per-variable savings (one output column per data column, e.g. L2Saving): what MVCAPA's subset inference needs
+contract(
+    target=FIT, variant="iface-pervar/BaseSaving", assumed=True, level="A",
+    params={"self": "obj:~BaseSaving", "self.ghost_per_variable": "bool=True", "X": "real[n,p]", "y": "none"},
+    modifies={"self._X": "=X", "self._is_fitted": "=True", "self.ghost_tok": "int", "self.ghost_n": "=n", "self.ghost_p": "=p",
+              "self.ghost_q": "=p"},
+    returns="=self",
+    note="fit(X) of a saving that returns one column per variable (ghost trait ghost_per_variable): evaluate has p columns",
+)
+
+# get_param_size of a user saving / cost: k parameters per variable (assumed interface: linear in p)
+for _cls in ("BaseSaving", "BaseCost"):
+    contract(
+        target=f"skchange/anomaly_scores/base.py::BaseSaving.get_param_size" if _cls == "BaseSaving" else "skchange/costs/base.py::BaseCost.get_param_size",
+        variant=f"iface/{_cls}", assumed=True, level="A",
+        params={"self": f"obj:~{_cls}", "self.ghost_params_per_variable": "int", "p": "int"},
+        returns="int",
+        ensures={"linear": "result == self.ghost_params_per_variable * p"},
+        note="get_param_size(p) == (parameters per variable) * p for the built-in and assumed for user-defined savings / costs",
+    )
